@@ -744,10 +744,16 @@ impl Card {
                 None => return Err(card),
             },
             CardBody::CallNative(j) => {
-                (i <= j.args.0.len()).then(|| j.args.0.insert(i, card));
+                if i > j.args.0.len() {
+                    return Err(card);
+                }
+                j.args.0.insert(i, card);
             }
             CardBody::Call(j) => {
-                (i <= j.args.0.len()).then(|| j.args.0.insert(i, card));
+                if i > j.args.0.len() {
+                    return Err(card);
+                }
+                j.args.0.insert(i, card);
             }
             CardBody::DynamicCall(j) => {
                 if i == 0 {
